@@ -301,6 +301,10 @@ def corpus():
                    C("N", False, 1, []), C("Xs", False, 0, [("xs", ("ann", ("list", ("cls", 1)), ("listSize", 1, 2)))])], 0, [2, 3, 4, 5, 1], True),
         gram.Spec([C("A0", True, None), C("Lit", False, 0, [], weight=2),
                    C("Pair", False, 0, [("p", ("tuple", ("cls", 0), "bool"))], weight=1)], 0, [1, 2], True),
+        # a production SWITCHED OFF by its weight (weights steer only the weight-aware decider): grow, full and PI-grow choose among
+        # all productions, so it belongs to the bounded language and is reached
+        gram.Spec([C("A0", True, None), C("Lit", False, 0, [("k", ("ann", "int", ("intRange", 0, 1)))], weight=3),
+                   C("Neg", False, 0, [("e", ("cls", 0))], weight=0), C("Id", False, 0, [("e", ("cls", 0))], weight=1)], 0, [1, 2, 3]),
         # windows (IntervalRange: a start and an end with a length between two bounds, inside 0..top): every admissible window
         gram.Spec([C("A0", True, None), C("Leaf", False, 0, []),
                    C("Win", False, 0, [("w", ("ann", ("tuple", "int", "int"), ("interval", 1, 3, 6)))])], 0, [1, 2]),
@@ -388,11 +392,47 @@ def retargeted(h: Harness, limit):
     one(h, spec, limit, b=b)
 
 
+def failing_productions_stay_inside(h: Harness):
+    """grammars in which the ONLY shallow production can fail (a reference needs a name in scope): where it fails and nothing else
+    fits the remaining depth there is no program for that sequence of decisions (the open C03 finding) -- but whatever creation does
+    return is a program of the bounded language: never deeper than the limit"""
+    from linear import safe
+    from geneticengine.random.sources import NativeRandomSource
+    C = gram.ClassSpec
+    sometimes = [("vars", ("ann", ("list", ("ann", "str", ("varRange", ["x", "y"]))), ("listSize", 0, 1))), ("x", ("ann", "str", ("depVarFrom", "vars")))]
+    specs = [gram.Spec([C("A0", True, None), C("V", False, 0, sometimes), C("Neg", False, 0, [("e", ("cls", 0))])], 0, [1, 2]),
+             gram.Spec([C("A0", True, None), C("V", False, 0, sometimes), C("Neg", False, 0, [("e", ("cls", 0))]),
+                        C("Add", False, 0, [("l", ("cls", 0)), ("r", ("cls", 0))])], 0, [2, 1, 3])]
+    rng = h.rng
+    for spec in specs:
+        b = gram.build(spec)
+        g = b.extract()
+        line_spec = gram.spec_sx(spec)
+        mind = g.get_min_tree_depth()
+        for d in range(mind, mind + 3):
+            for kind in ("grow", "pigrow", "full"):
+                seen = set()
+                for trial in range(h.n(40, 200)):
+                    r = NativeRandomSource(rng.randrange(10**6))
+                    st, v = safe(lambda: TreeBasedRepresentation(g, synth.make_decider(kind, d, r, g)).create_genotype(r))
+                    h.count(f"failing-production:{st}")
+                    if st != "ok":
+                        continue
+                    p = sx(zero_meta(gram.canon(v, b)))
+                    if p in seen:
+                        continue
+                    seen.add(p)
+                    h.holds(f"create_genotype[{kind}]", "reachable-program-outside-bounded-language", ["prop_in_language", line_spec, d, parse_sx(p)],
+                            f"{kind} at depth {d} on a grammar whose only shallow production can fail produced {p[:160]}, not a well-typed program of depth <= {d}",
+                            [sx(line_spec), d, p])
+
+
 def run(h: Harness):
     rng = h.rng
     limit = h.n(1500, 8000)
     retargeted(h, limit)
     mirror_languages(h, limit)
+    failing_productions_stay_inside(h)
     for spec in corpus():
         one(h, spec, limit)
     # each corpus grammar once more WITHOUT one of its productions, while the full grammar exists beside it
